@@ -13,6 +13,7 @@ type GenCfg struct {
 	MaxNest      int // nesting of anonymous structs (0 => 2)
 	MaxAnn       int // container nesting inside one annotation (0 => 3)
 	Holder       bool
+	HolderAlways bool // every struct declares the holder
 	Extras       bool
 	EmbHolder    bool // extras may include an embedded struct that itself declares a holder
 	NoCopy       bool
@@ -21,15 +22,15 @@ type GenCfg struct {
 	BigIDs       bool     // allow ids from the boundary set / whole range
 	NoByValue    bool     // never hold structs by value
 	NoTypedefs   bool
-	MaxBytes     int // approximate bound of one value's encoded size (0 => 16 KiB)
-	ContainerMax int // max elements per container (0 => 40), rare large ones on top
-	RequiredBias int // percent of fields required (0 => 20)
+	MaxBytes     int   // approximate bound of one value's encoded size (0 => 16 KiB)
+	ContainerMax int   // max elements per container (0 => 40), rare large ones on top
+	RequiredBias int   // percent of fields required (0 => 20)
 	CountChoices []int // when set, container sizes are drawn from this list
 	HolderBytes  bool  // holders may carry retained unknown-field bytes
 	NoNil        bool  // never generate nil containers / binaries / struct pointers
 	// Exclusions for open known findings (counted by the caller).
-	NoID65535      bool
-	NoBinaryMapVal bool
+	NoID65535        bool
+	NoBinaryMapVal   bool
 	NoZeroSizeStruct bool // avoid by-value structs with no fields
 	maxNestZero      bool // every struct position is a named reference
 }
@@ -152,7 +153,9 @@ func genStruct(t *rapid.T, c GenCfg, nest int, label string) *StructSpec {
 		perm := rapid.Permutation(s.Fields).Draw(t, "order")
 		s.Fields = perm
 	}
-	if c.Holder {
+	if c.HolderAlways {
+		s.Holder = true
+	} else if c.Holder {
 		s.Holder = rapid.IntRange(0, 3).Draw(t, "holder") == 0
 	}
 	if c.Extras && rapid.IntRange(0, 4).Draw(t, "extras") == 0 {
@@ -282,7 +285,8 @@ func genStructRef(t *rapid.T, c GenCfg, nest int, forcePtr bool) *TypeSpec {
 func scalarType(t *rapid.T, c GenCfg, k Kind) *TypeSpec {
 	ts := &TypeSpec{Kind: k}
 	if k == KEnum {
-		ts.Named = rapid.SampledFrom(EnumNames).Draw(t, "enum")
+		// TI64 is the same Go type the i64 typedef uses: only the annotation makes it an enum
+		ts.Named = rapid.SampledFrom([]string{"E1", "E2", "E3", "E4", "TI64"}).Draw(t, "enum")
 		return ts
 	}
 	if c.NoTypedefs {
@@ -291,6 +295,9 @@ func scalarType(t *rapid.T, c GenCfg, k Kind) *TypeSpec {
 	r := rapid.IntRange(0, 39).Draw(t, "typedef")
 	if r == 0 {
 		ts.Named = TypedefFor(k)
+		if k == KI64 && rapid.Bool().Draw(t, "enumtypeasi64") {
+			ts.Named = "E1" // an enum Go type annotated "i64" is a plain i64
+		}
 	} else if r == 1 && k == KI64 {
 		ts.GoInt = true
 	}
